@@ -4,7 +4,28 @@ import json, os
 ROOT = os.path.dirname(os.path.abspath(__file__))
 ALL = ["C%02d" % i for i in range(1, 21)]
 
+TIE = ("The model is tied to /repo on every run by an exact-arithmetic correspondence: the real generic code is executed at an exact rational "
+       "scalar on generated inputs and the model is evaluated on the same inputs inside Coq (vm_compute); executable statements of the property "
+       "clauses are also evaluated on the implementation to find a concrete failing input. ")
+NOTE = ("Trusted: Coq kernel + vm_compute; axioms as listed per theorem in the evidence file (Print Assumptions, re-parsed every run). The model is "
+        "hand-written: the tie to the code is differential (checked on the explored inputs), not a proof of model = code. ")
 CLAIMED = {
+ "C01": dict(
+   text="Machine-checked Coq theorems over the Gallina model of src/matrix.rs for every 2x2/3x3/4x4 matrix over any commutative ring/field: "
+        "layout of new/from_cols (element (c,r) = r-th component of column c, column-major flat image, out-of-range index = panic), "
+        "A*v = sum of columns scaled by v[c] and = textbook row sums, column c of A*B = A*(column c of B) and textbook sigma formula, "
+        "row/transpose/diagonal/trace, embeddings, identity/from_value/from_diagonal/from_scale/from_translation by their action on points and vectors, "
+        "element-wise +,-,neg,scalar ops, ring laws and linear action. " + TIE,
+   note=NOTE + "No axioms. Operand forms (by-ref/by-value) are property C17.",
+   design="6 (C01)", technique="Coq proof (ring/field, all entries symbolic) + exact-rational model/implementation correspondence"),
+ "C02": dict(
+   text="Machine-checked Coq theorems for every square matrix of dimension 2-4 over any field with decidable ==: invert = None iff det = 0, otherwise "
+        "M*N = N*M = I (the 4x4 inverse modelled as in the code: det_sub_proc on the flat array with its index arithmetic, 16 cofactors via transpose/"
+        "truncate_n/3x3 determinant); determinant = Leibniz permutation sum, multiplicative, transpose-invariant; transpose involution and "
+        "anti-homomorphism; transpose_self = transpose; swap_rows/columns/elements and replace_col for all index values (out-of-range = panic); "
+        "inverse_transform = invert. " + TIE + "The correspondence includes exactly singular and nearly singular (det ~1e-12) matrices and every index pair.",
+   note=NOTE + "No axioms. EqbSpec (== decides equality) is a hypothesis on the scalar type, proved for Qc.",
+   design="6 (C02)", technique="Coq proof (field, 16 symbolic entries) + exact-rational model/implementation correspondence"),
  "C03": dict(
    text="Machine-checked Coq theorems (9 theorems + 4 non-vacuity examples) over the hand-written Gallina model of src/vector.rs: "
         "component-wise action of every operator and of the ElementWise family, zero identity, module laws, dot symmetric/bilinear, "
